@@ -27,8 +27,9 @@ type Step struct {
 	NoPresence bool              `json:"nopresence,omitempty"`
 	Pres       map[string]string `json:"pres,omitempty"`
 	// Sx: the FaultN-th storage call of the request fails, before or after it took effect
-	FaultN     int  `json:"fn,omitempty"`
-	FaultAfter bool `json:"fa,omitempty"`
+	Park       string `json:"park,omitempty"` // Sq: the storage call at which the server parks this sync until Sw
+	FaultN     int    `json:"fn,omitempty"`
+	FaultAfter bool   `json:"fa,omitempty"`
 }
 
 // History is a complete scenario.
